@@ -382,8 +382,11 @@ def search(ck, tu, tcs, maxsize, seed):
             if sum(m) != half or set(m) - {0, 1} or len(m) != feats:
                 ck.finding("random_mask:count", "features=%d -> %s (expected %d ones)" % (feats, m, half),
                            {"search": "random_mask", "features": feats, "seed": seed + feats * 7 + trial})
-    # type predicates
-    for v in PYVALS:
+    # type predicates: the usual values, then integers of every size (python ints are unbounded: a float detour stops being exact at 2**53)
+    bigs = []
+    for e_ in (10, 24, 31, 32, 49, 52, 53, 54, 62, 63, 64, 65, 100, 200):
+        bigs += [2 ** e_, 2 ** e_ - 1, 2 ** e_ + 1, 2 ** e_ + 2 ** (e_ // 2), 3 * 2 ** e_]
+    for v in list(PYVALS) + bigs + [-b_ for b_ in bigs[:10]]:
         ck.case(("s-tc", repr(v)))
         isint = isinstance(v, int)
         exp = {"is_bool": isinstance(v, bool), "is_int": isint, "is_positive_int": isint and v > 0,
